@@ -152,3 +152,19 @@ MUTANTS = [
     ("a18-cli-edits-pattern", C, "        if replace_path is not None:\n            replace_pattern = Atoms.load(replace_path)\n", "        if replace_path is not None:\n            replace_pattern = Atoms.load(replace_path)\n            search_pattern.translate(-search_pattern.positions[0])\n", ["C20"]),
     ("e5-wrong-mode", A, "            with use_or_open(fd, path, mode='w') as fh:\n                return self.save_p1_cif(fh, **kwargs)", "            with use_or_open(fd, path) as fh:\n                return self.save_p1_cif(fh, **kwargs)", ["C13"]),
 ]
+
+
+# one-node mutants that survived the pinned tests AND the checks in the systematic sweep (tools/mutation_sweep.py) and drove new rules;
+# stored as whole-line replacements in selftest/sweep_mutants.json
+def _load_sweep():
+    import json
+    import os
+    p = os.path.join(os.path.dirname(os.path.abspath(__file__)), "sweep_mutants.json")
+    try:
+        with open(p) as f:
+            return [tuple(x) for x in json.load(f)]
+    except OSError:
+        return []
+
+
+MUTANTS.extend(_load_sweep())
